@@ -11,7 +11,7 @@ open C00mc
 
 let sort_cmds (l : cmd list) = List.sort compare l
 
-let handle_variant (v : variant) (x : Sexp.t) : string =
+let handle_variant ?(second_repair = false) (v : variant) (x : Sexp.t) : string =
   let id, fs = case_fields x in
   let sy = sys_of_case fs in
   let nm = names_of_case fs in
@@ -41,6 +41,14 @@ let handle_variant (v : variant) (x : Sexp.t) : string =
     if impl_order <> model_order then
       diffs := Printf.sprintf "signal-order: impl %d entries, model %d entries" (List.length impl_order) (List.length model_order) :: !diffs;
     let model_blocks = script_blocks v en (n_of_int entry) (N.to_nat (n_of_int unrolls)) in
+    (* patches/0002: the init block of entry 0 in the order of Encoding.init_at2, compared as a LIST *)
+    let model_blocks = match model_blocks with
+      | _ :: rest when second_repair && entry = 0 -> init_at2 en :: rest
+      | l -> l in
+    (match model_blocks, impl_blocks with
+     | mb :: _, ib :: _ when second_repair && entry = 0 && mb <> ib && sort_cmds mb = sort_cmds ib ->
+         diffs := "block 0: same commands as init_at2, another order" :: !diffs
+     | _ -> ());
     if List.length model_blocks <> List.length impl_blocks then diffs := "number of blocks" :: !diffs
     else List.iteri (fun i (mb, ib) ->
         if sort_cmds mb <> sort_cmds ib then begin
@@ -154,4 +162,5 @@ let handle_variant (v : variant) (x : Sexp.t) : string =
   end
 
 let () = Registry.register "C04" (handle_variant Current)
-let () = Registry.register "C04F" (handle_variant Fixed)
+let () = Registry.register "C04F" (handle_variant ~second_repair:C00mc.second_repair Fixed)
+let () = Registry.register "C04G" (handle_variant ~second_repair:true Fixed)
